@@ -16,20 +16,31 @@ type c11eqCB struct {
 	fire func() error
 }
 
+// c11Multi is a home-grown multi-error: an error in its own right that also offers its members.
+type c11Multi struct{ members []error }
+
+func (m *c11Multi) Error() string   { return fmt.Sprintf("multi-error with %d members", len(m.members)) }
+func (m *c11Multi) Unwrap() []error { return m.members }
+
 func (cb *c11eqCB) UpdateProperties(po tabular.PropertyOwner) error { return cb.fire() }
 
 func runC11Equal(x *X) {
 	depth := x.Pick(6, 7)
-	x.Explore("equal-valued-errors", ExploreOpts{ShardDepth: 3, Bound: fmt.Sprintf("sentinel kind (shared pointer | equal value) x failing add-time callback (none | table/ROW | table/CELL) x all sequences of <=%d operations {t.AddError(S|unique), r1/r2 := NewRow, r.AddError(S|unique), r.Add(cell), t.AddRow(r)}", depth)}, func(c *Chooser) {
+	x.Explore("equal-valued-errors", ExploreOpts{ShardDepth: 3, Bound: fmt.Sprintf("sentinel kind (shared pointer | equal value | errors.Join of two | multi-error with no members) x failing add-time callback (none | table/ROW | table/CELL) x all sequences of <=%d operations {t.AddError(S|unique), r1/r2 := NewRow, r.AddError(S|unique), r.Add(cell), t.AddRow(r)}", depth)}, func(c *Chooser) {
 		var S error
-		kind := c.Choose(2)
-		if kind == 0 {
+		kind := c.Choose(4)
+		switch kind {
+		case 0:
 			S = errors.New("sentinel")
-		} else {
+		case 1:
 			S = zeroErr{}
+		case 2:
+			S = errors.Join(errors.New("member-a"), errors.New("member-b"))
+		case 3:
+			S = &c11Multi{}
 		}
 		isS := func(e error) bool {
-			if kind == 0 {
+			if kind != 1 {
 				return e == S
 			}
 			_, ok := e.(zeroErr)
@@ -64,9 +75,9 @@ func runC11Equal(x *X) {
 				return
 			}
 		}
-		c.Logf("sentinel kind: %s; failing callback returning the sentinel: %s", []string{"one shared pointer error", "value-type error, all values equal"}[kind], cbName)
+		c.Logf("sentinel kind: %s; failing callback returning the sentinel: %s", []string{"one shared pointer error", "value-type error, all values equal", "one shared errors.Join(a, b) value", "one shared multi-error (Unwrap() []error) with no members"}[kind], cbName)
 		var ops []string
-		tags := []string{"equal_valued_errors", "sentinel:" + []string{"pointer", "value"}[kind], "callback:" + cbName}
+		tags := []string{"equal_valued_errors", "sentinel:" + []string{"pointer", "value", "joined", "empty_multi"}[kind], "callback:" + cbName}
 		check := func() bool {
 			var errs []error
 			if p, val, site := Safe(func() { errs = t.Errors() }); p {
